@@ -26,6 +26,10 @@ def gen_stream_workload(r, max_values=4, small=False, force_codec=None, allow_f2
         prims = r.sample(prims, r.randrange(2, len(prims) + 1))
     cfg.prims = prims
     cfg.allow_any = r.random() < 0.5
+    if ('indef' in codec or codec == 'cer') and r.random() < 0.8:
+        # explicitly tagged ANY inside an indefinite-length SET is not decodable
+        # by the trivial schedule either (defect of unclaimed C01): mostly avoided
+        cfg.allow_any = False
     cfg.allow_open = r.random() < 0.4
     cfg.allow_choice = r.random() < 0.8
     cfg.allow_tags = r.random() < 0.85
@@ -44,9 +48,32 @@ def gen_stream_workload(r, max_values=4, small=False, force_codec=None, allow_f2
     use_spec = True
     if not U.has_implicit(desc) and not U.has_open(desc) and r.random() < 0.25:
         use_spec = False
+        # schemaless decoding of an empty container yields None (F7, C08/C16 territory)
+        for i in range(len(values)):
+            for _ in range(6):
+                if not has_empty_container(desc, values[i]):
+                    break
+                values[i] = U.gen_value(r, desc, vc)
     w = {'desc': desc, 'values': values, 'codec': codec, 'decoder': decoder_for(codec),
          'use_spec': use_spec, 'open_types': U.has_open(desc)}
     return w, cfg
+
+
+def has_empty_container(desc, v):
+    k = desc['k']
+    if k in ('SEQ', 'SET'):
+        if not v:
+            return True
+        for f in desc['fields']:
+            if f['n'] in v and not f.get('open') and has_empty_container(f['d'], v[f['n']]):
+                return True
+        return False
+    if k in ('SEQOF', 'SETOF'):
+        return not v or any(has_empty_container(desc['of'], x) for x in v)
+    if k == 'CHOICE':
+        a = dict((n, d) for n, d in desc['alts'])[v[0]]
+        return has_empty_container(a, v[1])
+    return False
 
 
 def stream_shape(w):
